@@ -82,6 +82,7 @@ CHECKS["C12"] = src("Family F_unsup: a small control alphabet plus exactly one c
 
 # additions made while the families grew (second round of seeded changes, defects reported by sub-agents)
 ADD = {
+ "C08": (" The term grammar also contains the two combinators added by repairs: seq.ForPost (post statement as a Seq) and seq.Breakable (a Break leaves the body); larger terms (size 5..12) derived from seeded choice tapes go through the same machine, reference and replay; the runtime's internal event stream recorded by the tracer hook is validated against Trace_Seq.tla.", ""),
  "C01": (" Further families through the same pipeline: F_lit (immediately invoked closures and generator literals nested in the generator, capturing its variables), F_jump (break / continue / switch / yielding post statements one size level deeper), the control-flow programs under every declaration form (method, generic function, function literal, literal nested in a literal), and larger programs derived from seeded choice tapes (MC_Rnd).",
          " Thorough: F_ctl and F_lit at the quick size with tapes one longer, F_jump size 5, 5 000 derived programs (a size-4 sweep of F_ctl, 58 976 programs / 1.83 M cases, ran once: 38 min, all spec = native, no violation; it is not the registered thorough tier because it needs 25 GB)."),
  "C02": (" Also F_expr (shapes of the yielded expression: negated, parenthesised, argument of a call, a variable of another package rt.Level changed by a plain post statement) and F_box / F_boxv (yields of freshly allocated objects and of struct VALUES, i.e. composite literals that read a variable).",
